@@ -152,17 +152,30 @@ def r_offset(ctx):
     ok = False
     if len(w) == 1 and w[0]["rv"]["k"] == "use":
         op = w[0]["rv"]["op"]
-        for _ in range(4):
+        for _ in range(8):
             if op.get("k") not in ("copy", "move"):
                 break
             if any(e["k"] == "field" and e["i"] == 1 for e in op["place"]["proj"]):
-                # the pair is the one popped from the queue
-                ok = "call:std::collections::VecDeque::pop_front" in local_sources(nx[0], op["place"]["local"])
+                # the pair is the one popped from the queue (possibly looked at through a reference to the popped item)
+                base = op["place"]["local"]
+                srcs = set(local_sources(nx[0], base))
+                for _hop in range(4):
+                    db = _def_of(nx[0], base)
+                    if db is None or db["rv"]["k"] != "ref":
+                        break
+                    base = db["rv"]["place"]["local"]
+                    srcs |= set(local_sources(nx[0], base))
+                ok = "call:std::collections::VecDeque::pop_front" in srcs
                 break
             d = _def_of(nx[0], op["place"]["local"])
-            if d is None or d["rv"]["k"] != "use":
+            if d is None:
                 break
-            op = d["rv"]["op"]
+            if d["rv"]["k"] == "use":
+                op = d["rv"]["op"]
+            elif d["rv"]["k"] == "ref":
+                op = {"k": "copy", "place": d["rv"]["place"]}      # a reference into the item: follow what it points into
+            else:
+                break
     rep.oblige(ok, "OFFSET|next|last-emitted", nx[0].span, "next() does not take last_emitted_tag_offset from the second component of the emitted pair")
     return rep
 
